@@ -86,7 +86,7 @@ _U = call('fast_2mul', a, b)
 _A12 = call('classic_2sum', c, proj(1, _U))
 _B12 = call('classic_2sum', proj(0, _U), proj(0, _A12))
 _GG = op('+', op('-', proj(0, _B12), _FMA), proj(1, _B12))
-_R23 = call('fast_2sum', _GG, proj(1, _A12))
+_R23 = call('classic_2sum', _GG, proj(1, _A12))     # Fast2Sum in the paper, under an ordering of exponents that fast_2sum's assertion does not express (F107)
 CLASSIC_2FMA = (_FMA, proj(0, _R23), proj(1, _R23))
 
 ORACLES = {
@@ -96,6 +96,21 @@ ORACLES = {
     'veltkamp_split': ('Veltkamp split', VELTKAMP), 'classic_2mul': ('Dekker TwoProduct', CLASSIC_2MUL),
     'classic_2fma': ('Boldo-Muller ErrFma', CLASSIC_2FMA),
 }
+
+
+def _any_two_sum(t):
+    """The same term with every two-sum routine read as "the rounded sum and its error": fast_2sum and classic_2sum return
+    the same pair wherever both are exact, in either operand order, so which one a sequence calls -- or a choice between
+    the two orders -- is not a difference in what it computes.  (Whether fast_2sum's ordering holds where it is called is
+    the last clause of this rule.)"""
+    if not isinstance(t, tuple):
+        return t
+    if t and t[0] == 'call' and t[1] in ('fast_2sum', 'classic_2sum') and len(t[2]) == 2:
+        return ('call', 'two-sum', tuple(sorted((_any_two_sum(x) for x in t[2]), key=repr)))
+    r = tuple(_any_two_sum(x) for x in t)
+    if r and r[0] == 'sel' and len(r) == 4 and r[2] == r[3]:
+        return r[2]
+    return r
 
 
 def l1_operation_dags(ctx: Ctx):
@@ -118,7 +133,7 @@ def l1_operation_dags(ctx: Ctx):
             ctx.bad(EFT, fn, name, f'returns {len(oracle)} components', f'got {len(got)}')
             continue
         for i, (g, w) in enumerate(zip(got, oracle)):
-            ctx.check(g == w, EFT, fn, name, f'{name}[{i}] = {show(w)}',
+            ctx.check(_any_two_sum(g) == _any_two_sum(w), EFT, fn, name, f'{name}[{i}] = {show(w)}',
                       f'the source computes {show(g)}; {who} computes {show(w)} (operation order and operands matter: each step is a rounded operation)')
     # Priest: conditional swap so that |a| >= |b|, then the renormalisation test
     name = 'priest_2sum'
@@ -139,8 +154,8 @@ def l1_operation_dags(ctx: Ctx):
     # fast_2sum states its ordering precondition
     d = DagBuilder(funcs['fast_2sum']).run()
     ctx.check(any('abs' in show(t) and 'GtE' in show(t) for _, t in d.asserts), EFT, funcs['fast_2sum'], 'fast_2sum', 'asserts |a| >= |b| (or a non-finite operand)', 'precondition no longer checked')
-    # ... and no more than that: ErrFma ends in Fast2Sum(g, a2), for which Boldo and Muller prove "g = 0 or |g| >= |a2|";
-    # a precondition without the first alternative refuses operands the published algorithm is exact on
+    # ... and no more than that: with a = 0 the sequence is exact (s = b, z = b, t = 0) and the stated precondition
+    # ("|a| >= |b|, or a is zero") admits it
     asserts = [s_ for s_ in funcs['fast_2sum'].body if isinstance(s_, ast.Assert)]
     alts = set()
     for s_ in asserts:
@@ -148,9 +163,37 @@ def l1_operation_dags(ctx: Ctx):
         alts |= {norm(v) for v in (t_.values if isinstance(t_, ast.BoolOp) and isinstance(t_.op, ast.Or) else [t_])}
     params = [x.arg for x in funcs['fast_2sum'].args.args]
     zero_ok = {f'{params[0]} == 0', f'0 == {params[0]}', f'{params[0]} == 0.0'} & alts
-    uses = any(call_name(k) == 'fast_2sum' for k in calls_in(funcs['classic_2fma']))
-    ctx.check(bool(zero_ok) or not uses, EFT, asserts[0] if asserts else funcs['fast_2sum'], 'fast_2sum', 'the precondition admits a zero first operand (classic_2fma hands it g = 0 with a2 != 0)',
-              f'alternatives: {sorted(alts)}: classic_2fma raises AssertionError on ordinary binary64 triples instead of returning (r1, a2, 0)')
+    ctx.check(bool(zero_ok), EFT, asserts[0] if asserts else funcs['fast_2sum'], 'fast_2sum', 'the precondition admits a zero first operand, as stated',
+              f'alternatives: {sorted(alts)}: fast_2sum(0, b) raises AssertionError instead of returning (b, 0)')
+    # a library routine that hands operands to fast_2sum establishes their order first: the assertion is on magnitudes,
+    # and nothing computed by rounded operations comes with its magnitudes ordered for free (Boldo and Muller's g and a2
+    # have ordered exponents only: |g| < |a2| with g != 0 on about 2% of binary64 triples)
+    sites = 0
+    for name, fn in funcs.items():
+        def visit(stmts, facts):
+            nonlocal sites
+            for st in stmts:
+                if isinstance(st, ast.If):
+                    t_ = norm(st.test)
+                    visit(st.body, facts | {t_})
+                    visit(st.orelse, facts | {f'not ({t_})'})
+                    continue
+                if isinstance(st, (ast.For, ast.While, ast.With)):
+                    visit(st.body, facts)
+                    continue
+                for k in calls_in(st):
+                    if call_name(k) != 'fast_2sum' or len(k.args) < 2:
+                        continue
+                    sites += 1
+                    x, y = norm(k.args[0]), norm(k.args[1])
+                    ordered = {f'abs({x}) >= abs({y})', f'abs({y}) <= abs({x})', f'not (abs({x}) < abs({y}))', f'not (abs({y}) > abs({x}))',
+                               f'abs({x}) > abs({y})', f'abs({y}) < abs({x})', f'not (abs({y}) >= abs({x}))', f'not (abs({x}) <= abs({y}))'} & facts
+                    ctx.check(bool(ordered), EFT, k, name, f'fast_2sum({x}, {y}) is reached only with |{x}| >= |{y}| established by a test',
+                              f'no enclosing test orders the two magnitudes (tests in force: {sorted(facts) or "none"}): the assertion of fast_2sum fails on operands the caller accepts, '
+                              f'e.g. classic_2fma(-2.7950686078118085, 1.0788852662815076, 2.944362457146374) in binary64')
+        if name != 'fast_2sum':
+            visit(fn.body, frozenset())
+    ctx.note(f'{sites} call(s) of fast_2sum inside the library')
 
 
 def l2_exact_parts(ctx: Ctx):
@@ -342,6 +385,11 @@ MUTANTS = [
            "                case Float(), Float():\n                    xr, yr = x.as_real(), y.as_real()\n                    if xr.is_nonzero() and yr.is_nonzero() and abs(xr.e - yr.e) > 65536:\n                        return None\n                    return Float(x=xr + yr, ctx=REAL)", 'C20.L4',
            'seeded change C20d: ideal_2sum(2**100000, 2**-100000) under FP256 raises'),
     Mutant('exact-product-declines-fractions', 'fpy2/number/engine/real.py', "    def mul(self, x: EngineArg, y: EngineArg, ctx: Context) -> EngineRes:\n", "    def mul(self, x: EngineArg, y: EngineArg, ctx: Context) -> EngineRes:\n        if isinstance(x, Fraction) and isinstance(y, Fraction):\n            return None\n", 'C20.L4'),
+    Mutant('errfma-ends-in-fast-2sum', EFT, "    r2, r3 = classic_2sum(g, a2)\n", "    r2, r3 = fast_2sum(g, a2)\n", 'C20.L1',
+           'finding F107 before its repair: classic_2fma raises AssertionError on about 2% of binary64 triples'),
+    Mutant('errfma-ends-in-ordered-fast-2sum', EFT, "    r2, r3 = classic_2sum(g, a2)\n", "    if abs(g) >= abs(a2):\n        r2, r3 = fast_2sum(g, a2)\n    else:\n        r2, r3 = fast_2sum(a2, g)\n", 'C20.L1',
+           'an equally exact ending: same pair, ordering established by the test', expect='silent'),
+    Mutant('errfma-fast-2sum-ordered-the-wrong-way', EFT, "    r2, r3 = classic_2sum(g, a2)\n", "    if abs(g) >= abs(a2):\n        r2, r3 = fast_2sum(a2, g)\n    else:\n        r2, r3 = fast_2sum(g, a2)\n", 'C20.L1'),
     Mutant('2sum-virtual-operand', EFT, "    bb = s - aa\n", "    bb = s - a\n", 'C20.L1', 'the defect repaired by the fix: commit'),
     Mutant('fast2sum-operands-swapped', EFT, "    z = s - a\n    t = b - z", "    z = s - b\n    t = b - z", 'C20.L1'),
     Mutant('veltkamp-constant', EFT, "    C = fp.pow(fp.round(2), s) + fp.round(1)", "    C = fp.pow(fp.round(2), s) - fp.round(1)", 'C20.L1'),
